@@ -1,22 +1,469 @@
 package main
 
-import "golang.org/x/tools/go/ssa"
+import (
+	"fmt"
+	"go/types"
 
-// CtxObj models sdk.Context: block height, stores, event manager.
+	"golang.org/x/tools/go/ssa"
+)
+
+// ---------- chain environment model (DESIGN §2.4): context, KV stores, codec, params ----------
+
 type CtxObj struct {
 	height *Term
-	stores map[string]*StoreObj
-	evmgr  Value
+	stores map[*Cell]*StoreObj // keyed by the *KVStoreKey cell
+	evmgr  Value               // *sdk.EventManager (real struct)
+	params map[string]Value    // param sets by dynamic type
+	ms     *msObj
 }
+
+type msObj struct{ stores map[*Cell]*StoreObj }
 
 type StoreObj struct {
 	name    string
-	entries []storeEntry
+	entries []storeEntry // kept sorted by key when keys are comparable
+	writes  int
 }
 
 type storeEntry struct {
 	key []*Term
+	val Value // SliceV (raw bytes or blob)
+}
+
+type BlobObj struct {
 	val Value
+	typ types.Type
+}
+
+type IterObj struct {
+	items []storeEntry
+	pos   int
+	closed bool
+}
+
+func ctxOf(p *Path, v Value) *CtxObj {
+	ov, ok := v.(OpaqueV)
+	if !ok || (ov.kind != "ctx" && ov.kind != "goctx") {
+		if iv, ok2 := v.(IfaceV); ok2 {
+			return ctxOf(p, iv.v)
+		}
+		p.unsup("expected sdk.Context, got %T", v)
+	}
+	c := ov.data.(*CtxObj)
+	if c == nil {
+		p.unsup("use of zero sdk.Context")
+	}
+	return c
+}
+
+func mkCtx(c *CtxObj) Value { return OpaqueV{kind: "ctx", data: c} }
+
+func (p *Path) keyBytes(v Value) []*Term {
+	s, ok := v.(SliceV)
+	if !ok {
+		p.unsup("store key is %T", v)
+	}
+	if s.blob != nil {
+		p.unsup("blob used as store key")
+	}
+	return sliceTerms(s)
+}
+
+func keysEqual(a, b []*Term) *Term {
+	if len(a) != len(b) {
+		return tFalse
+	}
+	cs := make([]*Term, len(a))
+	for i := range a {
+		cs[i] = byteEq(a[i], b[i])
+	}
+	return tAnd(cs...)
+}
+
+func hasPrefixT(k, pre []*Term) *Term {
+	if len(pre) > len(k) {
+		return tFalse
+	}
+	cs := make([]*Term, len(pre))
+	for i := range pre {
+		cs[i] = byteEq(k[i], pre[i])
+	}
+	return tAnd(cs...)
+}
+
+func (p *Path) storeFind(s *StoreObj, k []*Term) int {
+	for i, e := range s.entries {
+		if p.decide(keysEqual(e.key, k)) {
+			return i
+		}
+	}
+	return -1
+}
+
+func (p *Path) storeSet(s *StoreObj, k []*Term, v Value) {
+	s.writes++
+	if i := p.storeFind(s, k); i >= 0 {
+		ne := make([]storeEntry, len(s.entries))
+		copy(ne, s.entries)
+		ne[i] = storeEntry{key: e0(ne[i].key), val: v}
+		s.entries = ne
+		return
+	}
+	// insert in bytewise order
+	pos := len(s.entries)
+	for i, e := range s.entries {
+		if p.decide(bytesLess(k, e.key, false)) {
+			pos = i
+			break
+		}
+	}
+	ne := make([]storeEntry, 0, len(s.entries)+1)
+	ne = append(ne, s.entries[:pos]...)
+	ne = append(ne, storeEntry{key: k, val: v})
+	ne = append(ne, s.entries[pos:]...)
+	s.entries = ne
+}
+
+func e0(k []*Term) []*Term { return k }
+
+func (p *Path) storeDelete(s *StoreObj, k []*Term) {
+	s.writes++
+	if i := p.storeFind(s, k); i >= 0 {
+		ne := make([]storeEntry, 0, len(s.entries))
+		ne = append(ne, s.entries[:i]...)
+		ne = append(ne, s.entries[i+1:]...)
+		s.entries = ne
+	}
+}
+
+func (p *Path) bytesValue(ts []*Term) Value {
+	vals := make([]Value, len(ts))
+	for i, t := range ts {
+		vals[i] = t
+	}
+	s := p.sliceFrom(vals)
+	return s
+}
+
+func (p *Path) mkIter(items []storeEntry) Value {
+	return IfaceV{t: opaqueType, v: OpaqueV{kind: "iter", data: &IterObj{items: items}}}
+}
+
+func (p *Path) storeRange(s *StoreObj, start, end Value, reverse bool) Value {
+	var lo, hi []*Term
+	hasLo, hasHi := false, false
+	if sv, ok := start.(SliceV); ok && !sv.isNil {
+		lo, hasLo = sliceTerms(sv), true
+	}
+	if sv, ok := end.(SliceV); ok && !sv.isNil {
+		hi, hasHi = sliceTerms(sv), true
+	}
+	var items []storeEntry
+	for _, e := range s.entries {
+		if hasLo && !p.decide(bytesLess(lo, e.key, true)) {
+			continue
+		}
+		if hasHi && !p.decide(bytesLess(e.key, hi, false)) {
+			continue
+		}
+		items = append(items, e)
+	}
+	if reverse {
+		for i, j := 0, len(items)-1; i < j; i, j = i+1, j-1 {
+			items[i], items[j] = items[j], items[i]
+		}
+	}
+	return p.mkIter(items)
+}
+
+func (p *Path) storePrefixIter(s *StoreObj, pre []*Term) Value {
+	var items []storeEntry
+	for _, e := range s.entries {
+		if p.decide(hasPrefixT(e.key, pre)) {
+			items = append(items, e)
+		}
+	}
+	return p.mkIter(items)
+}
+
+// deepCopy copies a value the way a protobuf round trip does: fresh cells for
+// everything reachable, empty slices become nil, nil sdk.Int becomes 0.
+func (p *Path) deepCopy(v Value, memo map[*Cell]*Cell) Value {
+	switch x := v.(type) {
+	case BigV:
+		if x.isNil {
+			return BigV{t: mkInt64(0)}
+		}
+		return x
+	case StructV:
+		f := make([]Value, len(x.f))
+		for i, e := range x.f {
+			f[i] = p.deepCopy(e, memo)
+		}
+		return StructV{f}
+	case ArrayV:
+		f := make([]Value, len(x.e))
+		for i, e := range x.e {
+			f[i] = p.deepCopy(e, memo)
+		}
+		return ArrayV{f}
+	case PtrV:
+		if x.c == nil {
+			return x
+		}
+		if n, ok := memo[x.c]; ok {
+			return PtrV{c: n, path: x.path}
+		}
+		n := p.newCell(nil, x.c.typ)
+		memo[x.c] = n
+		n.v = p.deepCopy(x.c.v, memo)
+		return PtrV{c: n, path: x.path}
+	case SliceV:
+		if x.isNil || x.len == 0 {
+			return SliceV{isNil: true}
+		}
+		if x.blob != nil {
+			return x
+		}
+		vals := make([]Value, x.len)
+		for i, e := range x.elems() {
+			vals[i] = p.deepCopy(e, memo)
+		}
+		return p.sliceFrom(vals)
+	case MapV:
+		if x.m == nil || len(x.m.entries) == 0 {
+			return MapV{}
+		}
+		n := p.newMap(x.m.kt, x.m.vt)
+		for _, e := range x.m.entries {
+			n.entries = append(n.entries, MapEntry{p.deepCopy(e.k, memo), p.deepCopy(e.v, memo)})
+		}
+		return MapV{n}
+	case IfaceV:
+		if x.t == nil {
+			return x
+		}
+		return IfaceV{t: x.t, v: p.deepCopy(x.v, memo)}
+	}
+	return v
+}
+
+func (p *Path) marshal(o Value) Value {
+	iv, ok := o.(IfaceV)
+	if !ok || iv.t == nil {
+		p.throwRuntime("marshal of nil message")
+	}
+	ptr, ok := iv.v.(PtrV)
+	if !ok || ptr.c == nil {
+		p.throwRuntime("marshal of nil message pointer")
+	}
+	val := p.deepCopy(ptr.load(), map[*Cell]*Cell{})
+	return SliceV{blob: &BlobObj{val: val, typ: iv.t}, len: 1, cap: 1}
+}
+
+func (p *Path) unmarshal(bz Value, o Value) Value {
+	s, ok := bz.(SliceV)
+	if !ok {
+		p.unsup("unmarshal of %T", bz)
+	}
+	iv := o.(IfaceV)
+	ptr := iv.v.(PtrV)
+	if s.blob == nil {
+		if s.isNil || s.len == 0 {
+			// empty input decodes to the zero message
+			ptr.store(zeroValue(deref(iv.t)))
+			return IfaceV{}
+		}
+		p.unsup("unmarshal of raw bytes (protobuf wire format is not encoded)")
+	}
+	if !types.Identical(s.blob.typ, iv.t) {
+		p.unsup("unmarshal of %v into %v", s.blob.typ, iv.t)
+	}
+	ptr.store(p.deepCopy(s.blob.val, map[*Cell]*Cell{}))
+	return IfaceV{}
+}
+
+func (p *Path) sdkFunc(name string) *ssa.Function {
+	pkg := p.eng.prog.ImportedPackage("github.com/cosmos/cosmos-sdk/types")
+	if pkg == nil {
+		p.unsup("cosmos-sdk/types not loaded")
+	}
+	fn := pkg.Func(name)
+	if fn == nil {
+		p.unsup("sdk function %s not found", name)
+	}
+	return fn
+}
+
+func init() {
+	C := "(" + sdkT + "Context)."
+	reg("verif_NewContext", func(p *Path, fn *ssa.Function, a []Value) Value {
+		h := a[0].(*Term)
+		c := &CtxObj{height: bvToInt(h, true), stores: map[*Cell]*StoreObj{}, params: map[string]Value{}}
+		c.evmgr = p.callFunction(p.sdkFunc("NewEventManager"), nil, nil, nil)
+		for _, k := range sliceArgs(a[1]) {
+			kp := k.(IfaceV).v.(PtrV)
+			c.stores[kp.c] = &StoreObj{name: fmt.Sprint(len(c.stores))}
+		}
+		return mkCtx(c)
+	})
+	reg("verif_Codec", func(p *Path, fn *ssa.Function, a []Value) Value {
+		return IfaceV{t: opaqueType, v: OpaqueV{kind: "codec", data: "codec"}}
+	})
+	reg("verif_Subspace", func(p *Path, fn *ssa.Function, a []Value) Value {
+		return zeroValue(fn.Signature.Results().At(0).Type())
+	})
+	reg(C+"KVStore", func(p *Path, fn *ssa.Function, a []Value) Value {
+		c := ctxOf(p, a[0])
+		kp, ok := a[1].(IfaceV).v.(PtrV)
+		if !ok {
+			p.unsup("store key of type %T", a[1].(IfaceV).v)
+		}
+		s := c.stores[kp.c]
+		if s == nil {
+			p.throwRuntime("kv store with key has not been registered in stores")
+		}
+		return IfaceV{t: opaqueType, v: OpaqueV{kind: "store", data: s}}
+	})
+	reg(C+"BlockHeight", func(p *Path, fn *ssa.Function, a []Value) Value { return ctxOf(p, a[0]).height })
+	reg(C+"EventManager", func(p *Path, fn *ssa.Function, a []Value) Value { return ctxOf(p, a[0]).evmgr })
+	reg(C+"Logger", func(p *Path, fn *ssa.Function, a []Value) Value {
+		return IfaceV{t: opaqueType, v: OpaqueV{kind: "logger", data: "logger"}}
+	})
+	reg(C+"WithBlockHeight", func(p *Path, fn *ssa.Function, a []Value) Value {
+		c := *ctxOf(p, a[0])
+		c.height = bvToInt(a[1].(*Term), true)
+		return mkCtx(&c)
+	})
+	reg(C+"WithEventManager", func(p *Path, fn *ssa.Function, a []Value) Value {
+		c := *ctxOf(p, a[0])
+		c.evmgr = a[1]
+		return mkCtx(&c)
+	})
+	reg(C+"IsCheckTx", func(p *Path, fn *ssa.Function, a []Value) Value { return tFalse })
+	reg(C+"IsReCheckTx", func(p *Path, fn *ssa.Function, a []Value) Value { return tFalse })
+	reg(C+"Context", func(p *Path, fn *ssa.Function, a []Value) Value {
+		return IfaceV{t: opaqueType, v: OpaqueV{kind: "goctx", data: ctxOf(p, a[0])}}
+	})
+	reg(sdkT+"WrapSDKContext", func(p *Path, fn *ssa.Function, a []Value) Value {
+		return IfaceV{t: opaqueType, v: OpaqueV{kind: "goctx", data: ctxOf(p, a[0])}}
+	})
+	reg(sdkT+"UnwrapSDKContext", func(p *Path, fn *ssa.Function, a []Value) Value { return mkCtx(ctxOf(p, a[0])) })
+	reg(sdkT+"KVStorePrefixIterator", func(p *Path, fn *ssa.Function, a []Value) Value {
+		s := a[0].(IfaceV).v.(OpaqueV)
+		if s.kind != "store" {
+			p.unsup("KVStorePrefixIterator on %s", s.kind)
+		}
+		return p.storePrefixIter(s.data.(*StoreObj), p.keyBytes(a[1]))
+	})
+	reg(sdkT+"KVStoreReversePrefixIterator", func(p *Path, fn *ssa.Function, a []Value) Value {
+		s := a[0].(IfaceV).v.(OpaqueV)
+		it := p.storePrefixIter(s.data.(*StoreObj), p.keyBytes(a[1])).(IfaceV).v.(OpaqueV).data.(*IterObj)
+		for i, j := 0, len(it.items)-1; i < j; i, j = i+1, j-1 {
+			it.items[i], it.items[j] = it.items[j], it.items[i]
+		}
+		return p.mkIter(it.items)
+	})
+
+	// store methods
+	om := opaqueMethods
+	om["store.Get"] = func(p *Path, ov OpaqueV, a []Value) Value {
+		s := ov.data.(*StoreObj)
+		if i := p.storeFind(s, p.keyBytes(a[0])); i >= 0 {
+			return s.entries[i].val
+		}
+		return SliceV{isNil: true}
+	}
+	om["store.Has"] = func(p *Path, ov OpaqueV, a []Value) Value {
+		s := ov.data.(*StoreObj)
+		return mkBool(p.storeFind(s, p.keyBytes(a[0])) >= 0)
+	}
+	om["store.Set"] = func(p *Path, ov OpaqueV, a []Value) Value {
+		v := a[1].(SliceV)
+		if v.isNil {
+			p.throwRuntime("value is nil")
+		}
+		if v.blob == nil {
+			// detach from the caller's backing array
+			v = p.bytesValue(sliceTerms(v)).(SliceV)
+		}
+		p.storeSet(ov.data.(*StoreObj), p.keyBytes(a[0]), v)
+		return nil
+	}
+	om["store.Delete"] = func(p *Path, ov OpaqueV, a []Value) Value {
+		p.storeDelete(ov.data.(*StoreObj), p.keyBytes(a[0]))
+		return nil
+	}
+	om["store.Iterator"] = func(p *Path, ov OpaqueV, a []Value) Value {
+		return p.storeRange(ov.data.(*StoreObj), a[0], a[1], false)
+	}
+	om["store.ReverseIterator"] = func(p *Path, ov OpaqueV, a []Value) Value {
+		return p.storeRange(ov.data.(*StoreObj), a[0], a[1], true)
+	}
+	om["iter.Valid"] = func(p *Path, ov OpaqueV, a []Value) Value {
+		it := ov.data.(*IterObj)
+		return mkBool(it.pos < len(it.items))
+	}
+	om["iter.Next"] = func(p *Path, ov OpaqueV, a []Value) Value {
+		it := ov.data.(*IterObj)
+		if it.pos >= len(it.items) {
+			p.throwRuntime("iterator is invalid")
+		}
+		it.pos++
+		return nil
+	}
+	om["iter.Key"] = func(p *Path, ov OpaqueV, a []Value) Value {
+		it := ov.data.(*IterObj)
+		if it.pos >= len(it.items) {
+			p.throwRuntime("iterator is invalid")
+		}
+		return p.bytesValue(it.items[it.pos].key)
+	}
+	om["iter.Value"] = func(p *Path, ov OpaqueV, a []Value) Value {
+		it := ov.data.(*IterObj)
+		if it.pos >= len(it.items) {
+			p.throwRuntime("iterator is invalid")
+		}
+		return it.items[it.pos].val
+	}
+	om["iter.Close"] = func(p *Path, ov OpaqueV, a []Value) Value {
+		ov.data.(*IterObj).closed = true
+		return IfaceV{}
+	}
+	om["iter.Error"] = func(p *Path, ov OpaqueV, a []Value) Value { return IfaceV{} }
+	om["iter.Domain"] = func(p *Path, ov OpaqueV, a []Value) Value {
+		return TupleV{SliceV{isNil: true}, SliceV{isNil: true}}
+	}
+
+	// codec
+	om["codec.MustMarshalBinaryBare"] = func(p *Path, ov OpaqueV, a []Value) Value { return p.marshal(a[0]) }
+	om["codec.MarshalBinaryBare"] = func(p *Path, ov OpaqueV, a []Value) Value { return TupleV{p.marshal(a[0]), IfaceV{}} }
+	om["codec.MustUnmarshalBinaryBare"] = func(p *Path, ov OpaqueV, a []Value) Value {
+		p.unmarshal(a[0], a[1])
+		return nil
+	}
+	om["codec.UnmarshalBinaryBare"] = func(p *Path, ov OpaqueV, a []Value) Value { return p.unmarshal(a[0], a[1]) }
+
+	// params subspace: the param set lives in the context model, keyed by its dynamic type
+	PS := "(github.com/cosmos/cosmos-sdk/x/params/types.Subspace)."
+	reg(PS+"GetParamSet", func(p *Path, fn *ssa.Function, a []Value) Value {
+		c := ctxOf(p, a[1])
+		iv := a[2].(IfaceV)
+		v, ok := c.params[iv.t.String()]
+		if !ok {
+			p.throwRuntime("parameter set not initialised: " + iv.t.String())
+		}
+		iv.v.(PtrV).store(p.deepCopy(v, map[*Cell]*Cell{}))
+		return nil
+	})
+	reg(PS+"SetParamSet", func(p *Path, fn *ssa.Function, a []Value) Value {
+		c := ctxOf(p, a[1])
+		iv := a[2].(IfaceV)
+		c.params[iv.t.String()] = p.deepCopy(iv.v.(PtrV).load(), map[*Cell]*Cell{})
+		return nil
+	})
+	reg(PS+"HasKeyTable", func(p *Path, fn *ssa.Function, a []Value) Value { return tTrue })
+	reg(PS+"WithKeyTable", func(p *Path, fn *ssa.Function, a []Value) Value { return a[0] })
 }
 
 // ---------- addresses ----------
